@@ -282,6 +282,9 @@ class World:
         co = r["cell"].v
         if co is None:
             return False
+        # a checkout that was handed an idle connection when it was created is served already
+        if isinstance(co.f[4], Enum) and co.f[4].variant == "Some":
+            return True
         w = co.f[2]
         if isinstance(w, Enum) and w.f and isinstance(w.f[0], OneshotReceiverV):
             return w.f[0].sender.sent is not None
@@ -386,16 +389,27 @@ def scenario_of(cont):
         tr = w.trace if w is not None else []
         issues = [a for a in tr if a[0] == "issue"]
         scn = {"cont": int(cont)}
-        if any(a[0] == "dial" and a[2] == "err" for a in tr):
+        dial_err = [n for n, a in enumerate(tr) if a[0] == "dial" and a[2] == "err"]
+        cancel0 = [n for n, a in enumerate(tr) if a[0] == "cancel" and a[1] == 0]
+        if dial_err and cancel0 and cancel0[0] < dial_err[0]:
+            scn["how"] = "cancel+dial_err"
+        elif dial_err:
             scn["how"] = "dial_err"
         else:
             scn["how"] = "cancel"
+        events = dial_err + cancel0
+        second_issue = [n for n, a in enumerate(tr) if a[0] == "issue"][1:2]
+        if events and second_issue and second_issue[0] > max(events):
+            scn["r1_when"] = "after"
         if len(issues) > 1:
             scn["r1"] = issues[1][1]
         scn["family"] = "pool_stranded_waiter"
         scn["schedule"] = str(tr)
         if w is not None and any(c == "C14" for c, _ in w.viol):
             scn["family"] = "pool_preempt"
+            protos = [a[1] for a in issues]
+            if any(a[0] == "cancel" and a[1] < len(protos) and protos[a[1]] == "h2" for a in tr):
+                scn["abandon"] = "h2"
         if w is not None and any(c == "C04" for c, _ in w.viol):
             scn["family"] = "pool_extra_dial"
             cancels = [a[1] for a in tr if a[0] == "cancel"]
@@ -431,20 +445,32 @@ def obligations(prog, src, tier, seed, which="C03", n_req=2, depth=5, classes=("
         "struct:Checkout": prog.find_one(r"checkout::_::<impl at src/client/pool/checkout\.rs:\d+:\d+: \d+:\d+>::drop$", r"&mut Checkout<"),
     }
 
-    def mk_run(cont, protos, origins, n_req, depth):
+    def mk_run(cont, protos, origins, n_req, depth, probe=True):
         def run(ctx):
             ctx.drop_impls = drop_impls
             ctx.now = z3.IntVal(0)
             w = World(ctx, fns, cont)
             ctx.world = w
-            for _ in range(depth):
+            for step in range(depth):
                 acts = w.enabled(n_req, protos, origins)
                 if not acts:
                     break
-                a = ctx.choose([(True, x) for x in acts], "action")
+                # the scheduler's k-th choice is a solver variable ranging over the enabled actions;
+                # the executor forks on it like on any other symbolic switch, and a counterexample's
+                # schedule is the model's assignment to sched_step_0..k
+                sv = z3.Int(f"sched_step_{step}")
+                a = ctx.choose([(sv == i, x) for i, x in enumerate(acts)], "action")
                 w.apply(a)
             w.free_trace = list(w.trace)
             w.drain()
+            # "... followed by draining all outstanding attempts and issuing a fresh probe request":
+            # whatever was cancelled or failed before, a new request to the origin must still complete
+            if probe:
+                pv = z3.Int("probe_protocol")
+                proto = ctx.choose([(pv == i, x) for i, x in enumerate(protos)], "probe")
+                w.apply(("issue", proto, origins[0]))
+                w.reqs[-1]["probe"] = True
+                w.drain()
             return w
         return run
 
@@ -475,11 +501,18 @@ def obligations(prog, src, tier, seed, which="C03", n_req=2, depth=5, classes=("
             ctx.now = z3.IntVal(0)
             w = World(ctx, fns, cont)
             ctx.world = w
-            ctx.cfg = (cont, polls_before, proto)
+            abandon = ctx.choose([(True, "none"), (True, "h1"), (True, "h2")], "another request's attempt started and cancelled meanwhile")
+            abandon_polled = ctx.choose([(True, False), (True, True)], "that request was polled") if abandon != "none" else False
+            ctx.cfg = (cont, polls_before, proto, abandon, abandon_polled)
             w.issue(proto, 10)
             for _ in range(polls_before):
                 w.woken.add(("req", 0))
                 w.poll(0)
+            if abandon != "none":
+                w.apply(("issue", abandon, 10))
+                if abandon_polled:
+                    w.apply(("poll", 1))
+                w.apply(("cancel", 1))
             if w.reqs[0]["state"] != "active":
                 raise Inconclusive("request resolved without a connection")
             # another request's connection for the same origin is released now
@@ -499,17 +532,17 @@ def obligations(prog, src, tier, seed, which="C03", n_req=2, depth=5, classes=("
                 return [("pool protocol panics / deadlocks: " + str(p.value)[:100], False)]
             w = p.value
             r = w.reqs[0]
-            cont, polls_before, proto = p.ctx.cfg
+            cont, polls_before, proto, abandon, abandon_polled = p.ctx.cfg
             got = r.get("conn").cid if r["state"] == "holding" and r.get("conn") is not None else None
-            return [(f"[C14] a request still waiting for its own dial (polled {polls_before}x before) was not served by the connection released for its origin at its next poll (state {r['state']}, connection {got})", got == 50),
+            return [(f"[C14] a request still waiting for its own dial (polled {polls_before}x before) was not served by the connection released for its origin at its next poll (state {r['state']}, connection {got}; {proto} request, continue_after_preemption={cont}, abandoned attempt meanwhile: {abandon}{' (polled)' if abandon_polled else ''})", got == 50),
                     ("witness:reach", z3.BoolVal(True))]
 
         obs.append({"name": f"{which.lower()}_preempt_by_released_connection", "family": "pool_preempt",
                     "funcs": ["client::pool::Pool::checkout", "<Checkout as Future>::poll", "<Waiting as Future>::poll", "client::pool::PoolInner::push"],
-                    "bound": "one request (HTTP/1.1 or HTTP/2) dialing its own connection, polled 0, 1 or 2 times while the dial is pending; then an open connection for its origin is released; then one more poll; both continue_after_preemption settings",
+                    "bound": "one request (HTTP/1.1 or HTTP/2) dialing its own connection, polled 0, 1 or 2 times while the dial is pending; optionally a second request (HTTP/1.1 or HTTP/2, polled or not) is issued and cancelled; then an open connection for its origin is released; then one more poll; both continue_after_preemption settings",
                     "doc": "the waiting request takes the released connection no later than its next poll, however often it was polled before",
                     "run": run_preempt, "check": check_preempt, "crosscheck": False,
-                    "cex_extract": lambda p, m: {"family": "pool_preempt", "cont": int(p.ctx.cfg[0])},
+                    "cex_extract": lambda p, m: dict({"family": "pool_preempt", "cont": int(p.ctx.cfg[0])}, **({"abandon": p.ctx.cfg[3]} if p.ctx.cfg[3] != "none" else {})),
                     "judge": lambda scn, out: out.get("result", "").startswith(("panic", "crash")) or out.get("r1") == "timeout"})
     if "C04" in classes:
         def run_waiter_cancel(ctx):
@@ -554,12 +587,74 @@ def obligations(prog, src, tier, seed, which="C03", n_req=2, depth=5, classes=("
                     "run": run_waiter_cancel, "check": check_waiter_cancel, "crosscheck": False,
                     "cex_extract": lambda p, m: {"family": "pool_extra_dial", "cont": int(p.ctx.cfg[0]), "r1": p.ctx.cfg[2]},
                     "judge": lambda scn, out: out.get("result", "").startswith(("panic", "crash")) or int(out.get("dials", "1")) > 1})
+    if "C19" in classes:
+        def run_timed_out(ctx):
+            cont = ctx.choose([(True, False), (True, True)], "continue_after_preemption")
+            proto = ctx.choose([(True, "h1"), (True, "h2")], "protocol of the request that times out")
+            stage = ctx.choose([(True, "own dial, never polled"), (True, "own dial, polled"), (True, "waiting on another request's dial")], "stage at expiry")
+            bg_first = ctx.choose([(True, False), (True, True)], "background continuation runs before the dial completes")
+            outcome = ctx.choose([(True, "ok"), (True, "err")], "outcome of the dial that was in flight")
+            probe = ctx.choose([(True, "h1"), (True, "h2")], "protocol of the next request")
+            ctx.drop_impls = drop_impls
+            ctx.now = z3.IntVal(0)
+            w = World(ctx, fns, cont)
+            ctx.world = w
+            ctx.cfg = (cont, proto, stage, bg_first, outcome, probe)
+            if stage.startswith("waiting"):
+                w.apply(("issue", "h2", 10))
+                w.apply(("poll", 0))
+                victim = 1
+            else:
+                victim = 0
+            w.apply(("issue", proto, 10))
+            if stage != "own dial, never polled":
+                w.apply(("poll", victim))
+            # the timeout layer drops the inner future at expiry (shown by the Kani harnesses of this property)
+            w.apply(("cancel", victim))
+            if bg_first:
+                for j, t in enumerate(w.bg):
+                    if not t["done"] and ("bg", j) in w.woken:
+                        w.apply(("bg", j))
+            for n, k in enumerate(w.dials_started):
+                if k.state == "dialing" and k.outcome is None:
+                    w.apply(("dial", n, outcome))
+            w.drain()
+            w.apply(("issue", probe, 10))
+            w.drain()
+            return w
+
+        def check_timed_out(p):
+            if p.outcome == "panic":
+                return [("pool protocol panics / deadlocks: " + str(p.value)[:100], False)]
+            w = p.value
+            stranded = [r["i"] for r in w.reqs if r["state"] == "active"]
+            return [(f"[C19] after a request timed out ({p.ctx.cfg[2]}; {p.ctx.cfg[1]}; continue_after_preemption={p.ctx.cfg[0]}; its dial then {p.ctx.cfg[4]}) request(s) {stranded} to the same origin never complete -- schedule: {w.trace}", not stranded),
+                    ("pool mutex left locked", not w.shared.locked and not w.keys.locked),
+                    ("witness:reach", z3.BoolVal(True))]
+
+        def ex_timed_out(p, m):
+            cont, proto, stage, bg_first, outcome, probe = p.ctx.cfg
+            scn = {"family": "pool_stranded_waiter", "cont": int(cont), "how": "cancel+dial_err" if outcome == "err" else "cancel", "r1_when": "after", "r1": probe}
+            if stage.startswith("waiting"):
+                scn.update({"cancel_who": "r1", "r0": "h2"})
+            else:
+                scn["r0"] = proto
+            return scn
+
+        obs.append({"name": f"{which.lower()}_timed_out_request_leaves_pool_usable", "family": "pool_timeout_cleanup",
+                    "funcs": ["client::pool::Pool::checkout", "<Checkout as Future>::poll", "<Checkout as PinnedDrop>::drop", "client::pool::checkout::Checkout::as_delayed", "client::pool::PoolInner::cancel_connection"],
+                    "bound": "one request (HTTP/1.1 or HTTP/2) dropped while waiting for its own dial (polled or not) or for another request's dial; the background continuation runs before or after the dial completes; the dial succeeds or fails; then one fresh request (either protocol) and a drain; both continue_after_preemption settings",
+                    "doc": "dropping the inner request future at expiry never leaves the pool unable to serve the origin: the next request completes (with a connection or an error)",
+                    "run": run_timed_out, "check": check_timed_out, "crosscheck": False, "loop_bound": 12,
+                    "cex_extract": ex_timed_out,
+                    "judge": lambda scn, out: out.get("result", "").startswith(("panic", "crash")) or out.get("r1") == "timeout"})
+        return obs
     configs = [("cont_off", False), ("cont_on", True)]
     for name, cont in configs:
         obs.append({"name": f"{which.lower()}_pool_schedules_{name}", "family": "pool_schedules",
                     "funcs": ["client::pool::Pool::checkout", "<Checkout as Future>::poll", "<Waiting as Future>::poll", "<Checkout as PinnedDrop>::drop", "client::pool::checkout::Checkout::as_delayed",
                               "client::pool::checkout::register_connected", "<Pooled as Drop>::drop", "<WhenReady as Future>::poll", "<WhenReady as Drop>::drop", "client::pool::PoolInner::{push,pop,cancel_connection}"],
-                    "bound": f"{n_req} requests to {len(origins)} origin(s) (HTTP/1.1 or HTTP/2 each), every schedule of {depth} scheduler actions from {{issue, poll (only if woken), cancel, dial completes ok/err, release open/closed, run background task}}, then a drain phase in which all dials succeed and every woken task runs; continue_after_preemption={cont}",
+                    "bound": f"{n_req} requests to {len(origins)} origin(s) (HTTP/1.1 or HTTP/2 each), every schedule of {depth} scheduler actions from {{issue, poll (only if woken), cancel, dial completes ok/err, release open/closed, run background task}}, then a drain phase in which all dials succeed and every woken task runs, then a fresh probe request (either protocol) and a second drain; continue_after_preemption={cont}",
                     "doc": "no request is stranded at quiescence (C03); at most one HTTP/2 attempt in flight per origin (C04); a non-multiplexed connection is never in two places (C02); no closed connection is delivered (C05); no cross-origin delivery (C06); no panic/deadlock",
                     "run": mk_run(cont, ("h1", "h2"), origins, n_req, depth), "check": check, "crosscheck": False, "max_paths": 400000, "loop_bound": 12,
                     "cex_extract": scenario_of(cont), "judge": judge_sched})
